@@ -51,6 +51,9 @@ func (r *RateLimitedTokenRequest) Marshal() []byte {
 }
 
 func (r *RateLimitedTokenRequest) Unmarshal(data []byte) bool {
+	// the cached encoding belongs to the previous contents
+	r.raw = nil
+
 	s := cryptobyte.String(data)
 
 	var tokenType uint16
